@@ -56,6 +56,21 @@ reg(
     "DESIGN.md section 4 C19",
 )
 
+reg(
+    "C18",
+    "TLA+ I-spec of the cache protocol (DbCache.tla, one action per file-system primitive, both cache variants) composed with the crash / advisory-lock "
+    "environment and model-checked (NoFatal, NeverTrustDamaged, MutualExclusion, liveness Progress, SoloRepairs; the two pre-repair designs must be refuted); "
+    "TLC-generated schedules (interleavings + kills) replayed on real forked SPSDK processes by interposition on the module globals of "
+    "spsdk.utils.database; every primitive-level trace decided by TLC against the R-spec FsEnvTrace.tla (file system + lock + process death + outcome monitor)",
+    "Design-level exhaustive model checking for 2 (thorough: 3) processes, <= 1 (2) kills and all six initial file kinds, plus conformance: real processes "
+    "driven along TLC schedules, solo first use on every damaged state including a sweep of truncated prefixes of both cache files (thorough: dense), late "
+    "kills, two-process races through the damaged-cache handler and unsynchronised fresh interpreters; clauses NoFatal, AnswersTrue (digest of a query battery "
+    "equals the run with the cache disabled), Repaired (after an epilogue process both files are valid), environment conformance of every primitive.",
+    "Trusted: TLC, the scheduler / interposition layer and the probe that classifies cache files (uses SPSDK's own fingerprint function) in harness/c18.py. "
+    "Lock time-outs are assumed not to fire; kills happen between primitives (states inside a write are covered by the prefix sweep).",
+    "DESIGN.md section 4 C18",
+)
+
 NOT_YET = {
 }
 
